@@ -1,3 +1,116 @@
 import VpnCloud.Model.PeerCrypto
+import VpnCloud.Proofs.Lemmas.InitLemmas
+/-
+  C01 — the signed handshake: `read_from` accepts only windows signed by a trusted key, a rejected
+  window leaves no trace, stale buffer bytes play no role, and a handshake completes only on an
+  accepted window.  All statements are proved as given (no hypothesis added).
+-/
 namespace VpnCloud.Proofs.C01
+
+open VpnCloud VpnCloud.InitMsg VpnCloud.Init
+open VpnCloud.Proofs.InitLemmas
+
+/-- `read_from` never reports a fatal error: a bad datagram cannot tear down a handshake -/
+theorem readFrom_never_fatal (env : CryptoEnv) (w : Bytes) (T : List Bytes) (e : InitErr) (h : readFrom env w T = .error e) :
+    e = .parse ∨ e = .crypto ∨ e = .cryptoInit :=
+  readFrom_err env w T e h
+
+/-- **readFrom_accept_genuine**: whatever is accepted carries the salted hash of a trusted key and a signature by that key over the
+    bytes in front of it: the window starts with `signed ++ [sig.length] ++ sig` -/
+theorem readFrom_accept_genuine (env : CryptoEnv) (w : Bytes) (T : List Bytes) (m : InitMsg) (k : Bytes)
+    (h : readFrom env w T = .ok (m, k)) :
+    k ∈ T ∧ env.keyHash k (w.take 4) = (w.drop 4).take 4 ∧
+    ∃ signed sig rest, w = signed ++ [sig.length] ++ sig ++ rest ∧ env.sigVerify k signed sig = true := by
+  obtain ⟨hf, hs⟩ := readFrom_ok_inv env w T m k h
+  refine ⟨List.mem_of_find?_eq_some hf, ?_, hs⟩
+  have := List.find?_some hf
+  simpa using this
+
+/-- with ideal signatures (I1: only logged genuine messages verify) an accepted window starts with the exact bytes of a message that a
+    holder of a trusted key signed -/
+theorem accepted_was_signed_by_trusted (env : CryptoEnv) (honest : List (Bytes × Bytes × Bytes))
+    (I1 : ∀ k m s, env.sigVerify k m s = true → (k, m, s) ∈ honest)
+    (w : Bytes) (T : List Bytes) (m : InitMsg) (k : Bytes) (h : readFrom env w T = .ok (m, k)) :
+    k ∈ T ∧ ∃ signed sig rest, (k, signed, sig) ∈ honest ∧ w = signed ++ [sig.length] ++ sig ++ rest := by
+  obtain ⟨hk, _, signed, sig, rest, hw, hv⟩ := readFrom_accept_genuine env w T m k h
+  exact ⟨hk, signed, sig, rest, I1 _ _ _ hv, hw⟩
+
+/-- **handleInit_reject_pure**: a window that `read_from` rejects leaves the handshake object untouched, produces no reply and no fatal
+    error -/
+theorem handleInit_reject_pure (env : CryptoEnv) (bodyOf : BodyOf) (ok : Bytes → Bool) (st : InitSt) (w : Bytes) (rnd : Rand) (e : InitErr)
+    (h : readFrom env w st.trusted = .error e) :
+    (match handleInit env bodyOf ok st w rnd with | .err st' e' => st' = st ∧ e' = e | _ => False) ∧ e ≠ .cryptoInitFatal := by
+  constructor
+  · rw [handleInit_eq, h]
+    exact ⟨rfl, rfl⟩
+  · rcases readFrom_never_fatal env w st.trusted e h with h | h | h <;> rw [h] <;> decide
+
+/-- at `PeerCrypto` level: a handshake datagram whose content is rejected changes nothing and yields no datagram -/
+theorem peerCrypto_reject_pure (env : CryptoEnv) (bodyOf : BodyOf) (ok : Bytes → Bool) (pc : PeerCrypto) (ist : InitSt)
+    (rest tail : Bytes) (rnd : Rand) (rr : RotRand) (e : InitErr)
+    (hi : pc.init = some ist) (hne : rest ≠ []) (h : readFrom env rest ist.trusted = .error e) :
+    (match PeerCrypto.handleMessage env bodyOf ok pc (Generated.INIT_MESSAGE_FIRST_BYTE :: rest) tail rnd rr with
+     | .err pc' e' => pc'.init = pc.init ∧ pc'.core = pc.core ∧ pc'.rot = pc.rot ∧ pc'.unencrypted = pc.unencrypted ∧ e' = e
+     | _ => False) := by
+  have hemp : rest.isEmpty = false := by cases rest with
+    | nil => exact absurd rfl hne
+    | cons => rfl
+  have hh : handleInit env bodyOf ok ist rest rnd = .err ist e := by rw [handleInit_eq, h]
+  simp only [PeerCrypto.handleMessage, if_true, hemp, Bool.false_eq_true, if_false, PeerCrypto.handleInitMessage, hi, hh, and_self]
+
+set_option linter.unusedVariables false in
+/-- stale bytes behind a handshake datagram in the receive buffer play no role (regression theorem for a repaired defect);
+    the hypothesis `hne` of the given statement is not needed -/
+theorem stale_tail_irrelevant (env : CryptoEnv) (bodyOf : BodyOf) (ok : Bytes → Bool) (pc : PeerCrypto)
+    (rest t1 t2 : Bytes) (rnd : Rand) (rr : RotRand) (hne : rest ≠ []) :
+    PeerCrypto.handleMessage env bodyOf ok pc (Generated.INIT_MESSAGE_FIRST_BYTE :: rest) t1 rnd rr =
+    PeerCrypto.handleMessage env bodyOf ok pc (Generated.INIT_MESSAGE_FIRST_BYTE :: rest) t2 rnd rr := by
+  simp only [PeerCrypto.handleMessage, if_true]
+
+/-- a handshake can complete (peer becomes established) only on a window accepted by `read_from` under the object's trusted keys -/
+theorem success_needs_trusted_signature (env : CryptoEnv) (bodyOf : BodyOf) (ok : Bytes → Bool) (st st' : InitSt) (w : Bytes) (rnd : Rand)
+    (out p : Bytes) (ini : Bool) (log : SealLog)
+    (h : handleInit env bodyOf ok st w rnd = .ok st' (out, .success p ini, log)) :
+    ∃ m k, readFrom env w st.trusted = .ok (m, k) ∧ k ∈ st.trusted := by
+  obtain ⟨m, k, hr, _, _⟩ := handleInit_success env bodyOf ok st st' w rnd out p ini log h
+  exact ⟨m, k, hr, (readFrom_accept_genuine env w st.trusted m k hr).1⟩
+
+/-! ## non-vacuity: concrete instances with the toy cryptography of `InitLemmas.Toy` -/
+
+/-- a well-formed pong of the trusted peer is accepted, with arbitrary bytes behind it -/
+example : readFrom Toy.env (Toy.pong Toy.algos 0 ++ [1, 2, 3]) [[8, 8, 8, 8], [9, 9, 9, 9]] =
+    .ok (.pong (List.replicate 20 2) [6] Toy.algos (Toy.pl 0), [9, 9, 9, 9]) := by decide
+
+/-- rejections: too short, untrusted key, altered signed byte, missing stage part -/
+example : readFrom Toy.env [1, 2, 3] [[9, 9, 9, 9]] = .error .parse := by decide
+example : readFrom Toy.env (Toy.pong Toy.algos 0) [[8, 8, 8, 8]] = .error .crypto := by decide
+example : readFrom Toy.env ((Toy.pong Toy.algos 0).set 1 7) [[9, 9, 9, 9]] = .error .crypto := by decide
+example : readFrom Toy.env [0, 0, 0, 1, 9, 9, 9, 9, 0, 4, 9, 9, 0, 0] [[9, 9, 9, 9]] = .error .cryptoInit := by decide
+
+/-- the hypotheses of `handleInit_reject_pure` / `peerCrypto_reject_pure` are satisfiable -/
+example : readFrom Toy.env ((Toy.pong Toy.algos 0).set 1 7) Toy.st.trusted = .error .crypto := by decide
+
+example : (match PeerCrypto.handleMessage Toy.env (Toy.body 0) (fun _ => true) ({ init := some Toy.st } : PeerCrypto)
+      (Generated.INIT_MESSAGE_FIRST_BYTE :: (Toy.pong Toy.algos 0).set 1 7) [5, 5] Toy.rnd {} with
+     | .err pc' e' => pc'.init = some Toy.st ∧ pc'.core = none ∧ pc'.rot = none ∧ pc'.unencrypted = false ∧ e' = .crypto
+     | _ => False) :=
+  peerCrypto_reject_pure Toy.env (Toy.body 0) (fun _ => true) { init := some Toy.st } Toy.st ((Toy.pong Toy.algos 0).set 1 7) [5, 5]
+    Toy.rnd {} .crypto rfl (by decide) (by decide)
+
+/-- ideal signatures: an environment whose verification accepts exactly the logged signatures satisfies `I1`, and accepts the pong -/
+example :
+    let honest : List (Bytes × Bytes × Bytes) :=
+      [([9, 9, 9, 9], signedRegion (.pong (List.replicate 20 2) [6] Toy.algos (Toy.pl 0)) [0, 0, 0, 1] [9, 9, 9, 9], [9, 9, 0, 0])]
+    let env : CryptoEnv := { Toy.env with sigVerify := fun k m s => decide ((k, m, s) ∈ honest) }
+    (∀ k m s, env.sigVerify k m s = true → (k, m, s) ∈ honest) ∧
+    readFrom env (Toy.pong Toy.algos 0) [[9, 9, 9, 9]] = .ok (.pong (List.replicate 20 2) [6] Toy.algos (Toy.pl 0), [9, 9, 9, 9]) := by
+  refine ⟨?_, by decide⟩
+  intro k m s h
+  simpa using h
+
+/-- a handshake does complete on an accepted window -/
+example : ∃ st' out log, handleInit Toy.env (Toy.body 0) (fun _ => true) { Toy.st with algos := Toy.algosPlain }
+    (Toy.pong Toy.algosPlain 0) Toy.rnd = .ok st' (out, .success (Toy.pl 0) true, log) :=
+  ⟨_, _, _, rfl⟩
+
 end VpnCloud.Proofs.C01
